@@ -11,6 +11,7 @@ import (
 
 	"github.com/piprate/json-gold/ld"
 	"github.com/pquerna/cachecontrol"
+	"github.com/pquerna/cachecontrol/cacheobject"
 )
 
 const (
@@ -250,7 +251,7 @@ func (d *documentLoader) loadDocumentFromHTTP(
 		cachecontrol.Options{})
 	// If there are no errors parsing cache headers and there are no
 	// reasons not to cache, then we cache
-	if err == nil && len(reasons) == 0 {
+	if err == nil && len(reasons) == 0 && !requiresRevalidation(res.Header) {
 		shouldCache = true
 		expireTime = resExpireTime
 	}
@@ -272,4 +273,12 @@ func (d *documentLoader) loadDocumentFromHTTP(
 	}
 
 	return doc, nil
+}
+
+// requiresRevalidation reports whether the response carries the no-cache
+// directive: it may be stored but must not be reused without a successful
+// validation. The loader never revalidates, so it does not cache it.
+func requiresRevalidation(h http.Header) bool {
+	dir, err := cacheobject.ParseResponseCacheControl(h.Get("Cache-Control"))
+	return err == nil && dir != nil && dir.NoCachePresent
 }
